@@ -379,6 +379,26 @@ fn enc_read() {
         }
         let mut bad = good.clone();
         corrupt(&mut bad, &f);
+        // whatever the solver's flags: a sequential read that has to load the next chunk must reject
+        // it when that chunk is altered (tag checked on EVERY load of the normal reader)
+        if v_u64("by_read", 0) == 1 && c < big_l {
+            let mut l2 = EncryptionLayerInternal::new(Box::new(Cursor::new(good.clone())), &reader_cfg(v_u64("mode", 1) == 0)).unwrap();
+            l2.seek(SeekFrom::Start(0)).unwrap();
+            let mut sink = vec![0u8; c as usize];
+            l2.read_exact(&mut sink).unwrap();
+            let mut alt = good.clone();
+            let at = ((c / ch()) * cts()) as usize;
+            alt[at] ^= 0x40;
+            let ipos2 = l2.inner.position();
+            l2.inner = Box::new(Cursor::new(alt));
+            l2.inner.set_position(ipos2);
+            let mut b2 = vec![0u8; blen.max(1)];
+            if let Ok(k) = l2.read_internal(&mut b2) {
+                if k > 0 {
+                    return Some(format!("sequential read across the chunk edge at {c} returned {k} bytes of a chunk whose ciphertext was altered (repair-only option {} in the reader configuration)", if v_u64("mode", 1) == 0 { "set" } else { "not set" }));
+                }
+            }
+        }
         let ipos = l.inner.position();
         l.inner = Box::new(Cursor::new(bad));
         l.inner.set_position(ipos);
